@@ -1371,6 +1371,7 @@ func run(c *core.Ctx) {
 	fixed := time.Date(2020, 1, 10, 0, 0, 0, 0, time.UTC)
 	astisub.Now = func() time.Time { return fixed }
 	metaDropRun(c)
+	metaUTFRun(c)
 	r := &runner{c: c}
 	thorough := c.Tier == core.Thorough
 	stop := false
@@ -1871,6 +1872,9 @@ func endState(codes []byte) stl.Style {
 
 func replay(sub string, raw json.RawMessage) (string, bool) {
 	log.SetOutput(io.Discard)
+	if sub == "metautf" {
+		return metaUTFReplay(raw)
+	}
 	if sub == "metadrop" {
 		return metaDropReplay(raw)
 	}
